@@ -6,7 +6,7 @@ TIE_THEOREMS = ["C03_tie_signedarea", "C03_tie_op_area", "C03_tie_Centroid_core"
                 "C03_tie_area", "C03_tie_Polygon_Area", "C03_tie_ringBounds", "C03_tie_MultiPolygon_Area",
                 "C03_tie_MultiPolygon_Centroid_core", "C03_tie_bounds_Area", "C03_tie_bounds_Centroid",
                 "C03_tie_op_length", "C03_tie_LineString_Length", "C03_tie_MultiLineString_Length",
-                "C03_tie_pointSubtract", "C03_tie_dot", "C03_tie_norm", "C03_tie_d",
+                "C03_tie_pointSubtract", "C03_tie_dot", "C03_tie_norm", "C03_tie_d", "C03_tie_distPointToSegment_core", "C03_tie_distPointToSegment",
                 "C03_tie_LineString_Distance", "C03_tie_MultiLineString_Distance", "C03_tie_Buffer"]
 
 
@@ -91,9 +91,10 @@ CFG["pregen"] = pregen
 CFG["trusted_base"].append(
     "T1: harness/cmd/c03/extract.go (go/ast, translation table in its header) regenerates lean/GeomV/C03/Gen.lean from area.go (signedarea, area, Polygon.Area, Polygon.ringBounds, the loop of Polygon.Centroid below its range guard), "
     "multipolygon.go (Area, the loops of Centroid below its range guard), op/properties.go (area, length, the loop of Centroid on a Polygon below its range guard), bounds.go (Area, Centroid), linestring.go / multilinestring.go (Length, Distance), "
-    "simplify.go (pointSubtract, dot, norm, d), point.go (Buffer) of the tree under test on every run, in a faulting monad (index, index assignment, slice, make, integer %, nil box, panic are partial: GenLib.lean; loops with return/continue keep their control flow); "
+    "simplify.go (pointSubtract, dot, norm, d, distPointToSegment), point.go (Buffer) of the tree under test on every run, in a faulting monad (index, index assignment, slice, make, integer %, nil box, panic are partial: GenLib.lean; loops with return/continue keep their control flow); "
     "Ties.lean proves that each regenerated function returns the model's value (areas, lengths, distances, MultiPolygon/op centroid loops: WITHOUT FAULT for every input; Polygon.Centroid loop, Point.Buffer: fault for fault; area: for the boxes of the rings of p and i < len(p)). "
     "Recognised statement groups, refused (exit 3, tie broken) when their text changes: the accumulator group `cx /= 6*d; cy /= 6*d; A += w; xA += cx*w; yA += cy*w` / `var A, xA, yA float64` / `return Point{xA/A, yA/A}` = CAcc.add / CAcc.zero / CAcc.finish (float division by zero); "
+    "the range guard of distPointToSegment (`if m := E; (m >= 0x1p500 || (m <= 0x1p-500 && m > 0)) && !math.IsInf(m, 0) { _, e := math.Frexp(m); k := math.Ldexp(1, e-1); return k * distPointToSegment(...) }`, compared as text) = `match RNum.rescale E` with the recursive call read as the code below the guard; "
     "the range guards at the head of the three centroid functions are cut off by their shape and NOT regenerated (centroidScale, scaled: tied by the correspondence run); "
-    "calls into other files are the models' functions: pointInPolygon = property C02's model of within.go with the boxes the code passes, pointsSimilar, distPointToSegment. "
+    "calls into other files are the models' functions: pointInPolygon = property C02's model of within.go with the boxes the code passes, pointsSimilar. "
     "Not modelled by the translation: slice capacity (taken = length), aliasing (observed by the harness), a nil *Bounds receiver of bounds.go's Area/Centroid, op.Area/op.Length/op.Centroid's type switches")
